@@ -52,37 +52,58 @@ Definition FIT_VECTOR : Z := 4294967232.     (* 0xFFFFFFC0 *)
 Definition VALID_FIT_RANGE : Z := 4278190080. (* 0xFF000000 *)
 Definition FOUR_GIB : Z := 4294967296.
 
-(** [getFITDataSize].  The real function goes through fiano's
-    [fit.EntryDataSegmentSize] with a ReadSeeker over physical memory whose
-    [Seek(0, SeekEnd)] always fails (it yields 4 GiB and offsets >= 4 GiB are
-    rejected): for a Startup ACM entry (type 2) the size is read from the module
-    header, needs that offset, the error is turned into a panic (finding
-    C06-D18).  For a BIOS Startup Module entry (type 7) the size is the header
-    field times 16.  The checks query no other type. *)
-Definition dsz_real (e : fent) : outcome Z :=
-  if ft e =? T_SACM then Panic else Ok (fs e * 16).
+(** Physical memory as the ACM size reader sees it: address of a 32-bit
+    little-endian word -> the word; an address without entry cannot be read. *)
+Definition physmem : Type := list (Z * Z).
+Fixpoint mem_lookup (a : Z) (m : physmem) : option Z :=
+  match m with
+  | [] => None
+  | (k, v) :: t => if k =? a then Some v else mem_lookup a t
+  end.
 
-(** What [getFITDataSize] would return with D18 repaired and an ACM whose
-    header states [fs e * 16] bytes; used for the `_partial` theorems that look
-    past D18. *)
-Definition dsz_total (e : fent) : outcome Z := Ok (fs e * 16).
+Definition ACM_SIZE_OFF : Z := 24.            (* fit.EntrySACMDataCommon{}.SizeBinaryOffset() *)
+Definition W63 : Z := 9223372036854775808.
+
+(** Size of a startup ACM (type 2) as fiano's [EntrySACM.CustomGetDataSegmentSize]
+    reads it through [txtAPIFirmwareReadSeeker]: [Seek(0, SeekEnd)] gives 4 GiB,
+    so the data offset is the physical address; [EntrySACMParseSizeFrom] seeks to
+    [int64(offset) + 24] (an error when that is negative or above 4 GiB), reads
+    the uint32 size field there (an error when the memory cannot be read) and
+    returns [size << 2] as uint32. *)
+Definition acm_raw_size (mem : physmem) (e : fent) : outcome Z :=
+  let r := if fa e <? W63 then fa e + ACM_SIZE_OFF else fa e + ACM_SIZE_OFF - W64 in
+  if (r <? 0) || (r >? FOUR_GIB) then Err 1
+  else match mem_lookup r mem with
+       | None => Err 2
+       | Some d => Ok (wrap32 (d * 4))
+       end.
+
+(** [getFITDataSize]: the data size of a BIOS startup module entry (type 7) is
+    the header field times 16, that of a startup ACM entry is read from the
+    module header in memory; an entry whose range [address + size] leaves the
+    64-bit address space is rejected.  The error becomes the internal error of
+    the check.  The checks query no other type. *)
+Definition dsz (mem : physmem) (e : fent) : outcome Z :=
+  bind (if ft e =? T_SACM then acm_raw_size mem e else Ok (fs e * 16)) (fun s =>
+    if wrap64 (fa e + s) <? fa e then Err 3 else Ok s).
 
 Section FIT.
 Variable dsz : fent -> outcome Z.
 
-(** [hdr.Address.Pointer() + uint64(getFITDataSize(hdr))] in uint64 *)
+(** [hdr.Address.Pointer() + size] in uint64 *)
 Definition end64 (a s : Z) : Z := wrap64 (a + s).
 
 (** the body of the inner loops of NoIBBOverlap / NoBIOSACMOverlap:
-    [true] iff the code decides "overlap" ([!a && !b]) *)
+    [true] iff the code decides "overlap" ([!a && !b]); the size of [hdr1] is
+    read first *)
 Definition overlap_test (e1 e2 : fent) : outcome bool :=
-  bind (dsz e2) (fun s2 =>
   bind (dsz e1) (fun s1 =>
-    let a := fa e1 >? end64 (fa e2) s2 in
-    let b := fa e2 >? end64 (fa e1) s1 in
+  bind (dsz e2) (fun s2 =>
+    let a := fa e1 >=? end64 (fa e2) s2 in
+    let b := fa e2 >=? end64 (fa e1) s1 in
     Ok (negb a && negb b))).
 
-(** inner loop restricted to j > i: [tl] are the entries after [h] *)
+(** inner loop over the entries [tl] *)
 Fixpoint inner (t2 : Z) (h : fent) (tl : list fent) : outcome bool :=
   match tl with
   | [] => Ok false
@@ -92,6 +113,7 @@ Fixpoint inner (t2 : Z) (h : fent) (tl : list fent) : outcome bool :=
       else inner t2 h tl'
   end.
 
+(** NoIBBOverlap: every BIOS startup module against the modules listed after it ([i < j]) *)
 Fixpoint pairs_check (t2 : Z) (l : list fent) : outcome bool :=
   match l with
   | [] => Ok false
@@ -101,26 +123,37 @@ Fixpoint pairs_check (t2 : Z) (l : list fent) : outcome bool :=
       else pairs_check t2 tl
   end.
 
+(** NoBIOSACMOverlap: every BIOS startup module against every entry of type [t2] of the
+    whole table [full] *)
+Fixpoint pairs_all (t2 : Z) (full l : list fent) : outcome bool :=
+  match l with
+  | [] => Ok false
+  | h :: tl =>
+      if ft h =? T_IBB then
+        bind (inner t2 h full) (fun o => if o then Ok true else pairs_all t2 full tl)
+      else pairs_all t2 full tl
+  end.
+
 Definition verd_of_found (o : outcome bool) : verd :=
   match o with
   | Ok true => fail
   | Ok false => pass
+  | Err _ => ierr
   | _ => VPanic
   end.
 
 Definition no_ibb_overlap (l : list fent) : verd := verd_of_found (pairs_check T_IBB l).
-Definition no_acm_overlap (l : list fent) : verd := verd_of_found (pairs_check T_SACM l).
+Definition no_acm_overlap (l : list fent) : verd := verd_of_found (pairs_all T_SACM l l).
 
-(** [addr <= lo && addr + size >= hi] for some BIOS startup module entry;
-    Go's [&&] does not evaluate getFITDataSize when the first test fails *)
+(** [size, err := getFITDataSize(hdr); addr <= lo && addr + size >= hi] for some BIOS
+    startup module entry *)
 Fixpoint covers (lo hi : Z) (l : list fent) : outcome bool :=
   match l with
   | [] => Ok false
   | e :: tl =>
       if ft e =? T_IBB then
-        if fa e <=? lo then
-          bind (dsz e) (fun s => if end64 (fa e) s >=? hi then Ok true else covers lo hi tl)
-        else covers lo hi tl
+        bind (dsz e) (fun s =>
+          if (fa e <=? lo) && (end64 (fa e) s >=? hi) then Ok true else covers lo hi tl)
       else covers lo hi tl
   end.
 
@@ -128,16 +161,16 @@ Definition verd_of_covers (o : outcome bool) : verd :=
   match o with
   | Ok true => pass
   | Ok false => fail
+  | Err _ => ierr
   | _ => VPanic
   end.
 
 Definition ibb_covers_rv (l : list fent) : verd := verd_of_covers (covers RESET_VECTOR (RESET_VECTOR + 4) l).
 Definition ibb_covers_fv (l : list fent) : verd := verd_of_covers (covers FIT_VECTOR (FIT_VECTOR + 4) l).
-(** [uint64(fitPointer + uint32(len(fitHeaders)*16))]: the sum is a uint32 *)
-Definition fit_end32 (fitptr : Z) (l : list fent) : Z :=
-  wrap32 (fitptr + wrap32 (Z.of_nat (length l) * 16)).
+(** [uint64(fitPointer) + uint64(len(fitHeaders)*16)] *)
+Definition fit_end (fitptr : Z) (l : list fent) : Z := fitptr + Z.of_nat (length l) * 16.
 Definition ibb_covers_fit (fitptr : Z) (l : list fent) : verd :=
-  verd_of_covers (covers fitptr (fit_end32 fitptr l) l).
+  verd_of_covers (covers fitptr (fit_end fitptr l) l).
 
 Fixpoint acm_above_4g (l : list fent) : outcome bool :=
   match l with
@@ -206,20 +239,21 @@ Definition MIN_SINIT : Z := 65536.          (* 0x10000 *)
 
 Definition heap_valid (hb hs sb ss mj : Z) : verd :=
   if hb >=? FOUR_GIB then fail
-  else if wrap32 (hb + hs) >=? FOUR_GIB then fail      (* uint64(uint32 sum): never true *)
+  else if hb + hs >=? FOUR_GIB then fail               (* uint64(HeapBase)+uint64(HeapSize) *)
   else if hs <? LEGACY_MIN_HEAP then fail
   else if sb >=? FOUR_GIB then fail
   else if Z.land sb 4095 >? 0 then fail
-  else if wrap32 (sb + ss) >=? FOUR_GIB then fail      (* never true *)
+  else if sb + ss >=? FOUR_GIB then fail
   else if ss <? MIN_SINIT then fail
   else if mj >=? FOUR_GIB then fail
   else if sb >=? hb then fail
   else if (sb >? 0) && negb (wrap32 (sb + ss) =? hb) then fail
   else pass.
 
-Definition dpr_size (dpr : Z) : Z := wrap32 (bits dpr 4 255 * MiB).
-Definition dpr_limit (dpr : Z) : Z := wrap32 (wrap16 (bits dpr 20 4095 + 1) * MiB).
-Definition dpr_base (dpr : Z) : Z := wrap32 (dpr_limit dpr - dpr_size dpr).
+(** TXTMemoryIsDPR: uint64 arithmetic; DPR size = bits 11:4 MiB, top = bits 31:20 (+1) MiB *)
+Definition dpr_size (dpr : Z) : Z := bits dpr 4 255 * MiB.
+Definition dpr_limit (dpr : Z) : Z := (bits dpr 20 4095 + 1) * MiB.
+Definition dpr_base (dpr : Z) : Z := wrap64 (dpr_limit dpr - dpr_size dpr).
 
 Definition memory_is_dpr (dpr hb hs sb ss : Z) : verd :=
   let size := dpr_size dpr in
@@ -228,10 +262,10 @@ Definition memory_is_dpr (dpr hb hs sb ss : Z) : verd :=
   if size <? 3 * MiB then fail
   else if base >? hb then fail
   else if (sb >? 0) && (base >? sb) then fail
-  else if limit <? wrap32 (hb + hs) then fail
-  else if (sb >? 0) && (limit <? wrap32 (sb + ss)) then fail
-  else if negb (limit =? wrap32 (hb + hs)) then fail
-  else if base >? wrap32 (wrap32 (wrap32 (limit - 2 * MiB) - hs) - ss) then fail
+  else if limit <? hb + hs then fail
+  else if (sb >? 0) && (limit <? sb + ss) then fail
+  else if negb (limit =? hb + hs) then fail
+  else if 2 * MiB + hs + ss >? size then fail
   else pass.
 
 (** hwapi.ReadHostBridgeTseg as shipped (go-linux-lowlevel-hw): the limit is
@@ -260,10 +294,9 @@ Definition valid_smrr (physbase_msr physmask_msr tsegbase tseglimit : Z) : verd 
 
 (** * 3. TPM NV indices and LCP policies (pkg/test/tpm.go) *)
 
-(** [checkTPM2NVAttr]: [(1 >> mask & (want | optional)) == 0]; Go parses
-    [1 >> mask & x] as [(1 >> mask) & x] *)
+(** [checkTPM2NVAttr]: [mask|optional == want|optional] *)
 Definition nvattr (mask want opt : Z) : bool :=
-  Z.land (if mask =? 0 then 1 else 0) (Z.lor want opt) =? 0.
+  Z.lor mask opt =? Z.lor want opt.
 
 Definition ATTR_PPWRITE : Z := 1.
 Definition ATTR_OWNERWRITE : Z := 2.
@@ -281,14 +314,13 @@ Definition AUX20_ATTR : Z :=
   ATTR_POLICYWRITE + ATTR_POLICYDELETE + ATTR_WRITESTCLEAR + ATTR_AUTHREAD + ATTR_NODA + ATTR_PLATFORMCREATE.
 Definition PO20_ATTR : Z := ATTR_OWNERWRITE + ATTR_POLICYWRITE + ATTR_AUTHREAD + ATTR_NODA.
 
-(** [crypto.Hash(x).Size()] of the Go standard library: digest sizes of
-    crypto.Hash values 1..19, a panic for every other value.  The code feeds it
-    a TPM algorithm id ([d2.NameAlg]). *)
-Definition go_hash_size (h : Z) : option Z :=
-  nth_error [16; 16; 20; 28; 32; 48; 64; 36; 20; 28; 32; 48; 64; 28; 32; 32; 32; 48; 64]
-            (Z.to_nat (h - 1)).
-Definition go_hash_size' (h : Z) : option Z :=
-  if (h <? 1) || (19 <? h) then None else go_hash_size h.
+(** [d2.NameAlg.Hash()] of go-tpm (legacy/tpm2, table hashInfo) followed by
+    [crypto.Hash.Size()]: SHA1, SHA256, SHA384, SHA512.  SHA3-256/384/512 are in
+    that table too, but their Go implementation is not linked into the binary
+    ("not available"): an error like for every other id (SM3 included). *)
+Definition tpm_hash_size (alg : Z) : option Z :=
+  if alg =? 4 then Some 20 else if alg =? 11 then Some 32
+  else if alg =? 12 then Some 48 else if alg =? 13 then Some 64 else None.
 
 Fixpoint be (l : list Z) (acc : Z) : Z :=
   match l with
@@ -324,12 +356,10 @@ Definition nv_index_config20 (which : Z) (blob : list Z) : verd :=
   | None => ierr
   | Some (namealg, attrs, _, ds) =>
       if negb (nvattr attrs (idx_want which) ATTR_WRITTEN) then fail
-      else match go_hash_size' namealg with
-           | None => VPanic
+      else match tpm_hash_size namealg with
+           | None => fail                      (* unsupported name algorithm: test error *)
            | Some hsz =>
-               if negb (ds =? idx_size which hsz) then fail
-               else if which =? 2 then fail     (* POIndexConfig falls out of the switch *)
-               else pass
+               if negb (ds =? idx_size which hsz) then fail else pass
            end
   end.
 
@@ -354,8 +384,10 @@ Definition nv_index_config12 (which : Z) (p1 p2 size attrs : Z) (rst wst wd : bo
     else if wd then warn
     else pass
   else
-    (* PO: both checks, then the function falls out of the switch *)
-    fail.
+    (* PO: permissions and size only *)
+    if negb (attrs =? 0) then fail
+    else if negb (size =? 54) then fail
+    else pass.
 
 (** AUXTPM2IndexCheckHash *)
 Definition AUX_HASH : list Z :=
@@ -383,38 +415,31 @@ Definition lcp_valid1 (version hashalg ptype sinitmin polctrl maxsinit : Z) (has
   else if hashzero then fail
   else pass.
 
-(** LCP_POLICY2: the PolicyType test reads [pol1.PolicyType] with [pol1 == nil]
-    whenever [pol2.PolicyType != Any] *)
+(** LCP_POLICY2 *)
 Definition lcp_valid2 (preset version hashalg ptype hmask smask : Z) : verd :=
   if version <? LCP_V3 then fail
   else if negb (hashalg =? preset) then fail
-  else if negb (ptype =? 1) then VPanic
+  else if negb (ptype =? 1) && negb (ptype =? 0) then fail
   else if hmask =? 0 then fail
   else if smask =? 0 then fail
   else pass.
 
-(** SINITACMcomplyTPMSpec (fit.go).  [sinitACM] calls [tools.ParseACM] TWICE on
-    the same reader and returns the SECOND result: the module parsed from the
-    bytes that FOLLOW the SINIT ACM inside the SINIT region.  [caps1]: TPM
-    capabilities word of the SINIT ACM itself (never looked at); [caps2]: those of
-    the module behind it, [None] when that second parse fails (zero padding, end
-    of region: the regular case); [tpm]: PreSet.TPM (1 = TPM 1.2, 2 = TPM 2.0);
+(** SINITACMcomplyTPMSpec (fit.go).  [sinitACM] parses the SINIT region and
+    returns the module found at its start.  [caps1]: TPM capabilities word of
+    that SINIT ACM; [caps2]: those of a module stored behind it in the region, if
+    any (not looked at); [tpm]: PreSet.TPM (1 = TPM 1.2, 2 = TPM 2.0);
     [present]: the "TPM is present" test has passed.
     [1 >> caps & x] parses as [(1 >> caps) & x]. *)
 Definition FAM_DTPM12 : Z := 1.    (* tools.TPMFamilyDTPM12   0x0001 *)
 Definition FAM_DTPM20 : Z := 16.   (* tools.TPMFamilyDTPM20   0x0010 *)
 Definition FAM_BOTH : Z := 17.     (* tools.TPMFamilyDTPMBoth 0x0011 *)
 Definition sinit_tpm_spec (caps1 : Z) (caps2 : option Z) (tpm : Z) (present : bool) : verd :=
-  match caps2 with
-  | None => fail
-  | Some c =>
-      let one_shr := if c =? 0 then 1 else 0 in
-      let r12 := Z.land one_shr (Z.lor FAM_DTPM12 FAM_BOTH) in
-      let r20 := Z.land one_shr (Z.lor FAM_DTPM20 FAM_BOTH) in
-      if (r12 =? 0) && (tpm =? 1) && present then pass
-      else if (r20 =? 0) && (tpm =? 2) && present then pass
-      else fail
-  end.
+  let one_shr := if caps1 =? 0 then 1 else 0 in
+  let r12 := Z.land one_shr (Z.lor FAM_DTPM12 FAM_BOTH) in
+  let r20 := Z.land one_shr (Z.lor FAM_DTPM20 FAM_BOTH) in
+  if (r12 =? 0) && (tpm =? 1) && present then pass
+  else if (r20 =? 0) && (tpm =? 2) && present then pass
+  else fail.
 
 (** * 4. Boot Guard / ME verdicts (pkg/provisioning/bootguard) — results are
       (bool, error): [V ok err false] *)
@@ -504,26 +529,27 @@ Definition validate_me (v : Z) (f : fws6) (bpmsvn kmsvn kmid : Z) : verd :=
     else if negb (f_kmsvn f =? kmsvn) then bad
     else if negb (f_kmid f =? kmid) then bad
     else good
-  else good.
+  else bad.   (* "can't identify bootguard header" *)
 
 (** hash algorithm ids: SHA1 = 4, Null = 0x10, unset = 0 *)
 Definition insecure_alg (a : Z) : bool := (a =? 4) || (a =? 16) || (a =? 0).
 
-(** BPMCryptoSecure. [nse] number of SE elements ([SE[0]] panics on 0);
-    v1: [algs] = [IBB digest alg]; v2: [algs] = DigestList.List algs,
-    [lsize] = DigestList.Size *)
+(** BPMCryptoSecure. [nse] number of SE elements (0: "bpm has no SE element");
+    v1: [algs] = [IBB digest alg]; v2: [algs] = DigestList.List algs, a SHA1/Null
+    digest is rejected when it is the only one ([len(List) < 2]);
+    [lsize] = DigestList.Size (the byte size of the list; not consulted) *)
 Definition bpm_crypto (v nse : Z) (algs : list Z) (lsize sigalg : Z) : verd :=
   if v =? 1 then
-    if nse =? 0 then VPanic
+    if nse =? 0 then bad
     else if insecure_alg (hd 0 algs) then bad
     else if insecure_alg sigalg then bad
     else good
   else if v =? 2 then
-    if nse =? 0 then VPanic
-    else if existsb (fun a => insecure_alg a && (lsize <? 2)) algs then bad
+    if nse =? 0 then bad
+    else if existsb (fun a => insecure_alg a && (Z.of_nat (length algs) <? 2)) algs then bad
     else if insecure_alg sigalg then bad
     else good
-  else good.
+  else bad.
 
 (** KMCryptoSecure. v1: [a1] = KM signature hash alg, [algs] = [BPKey alg];
     v2: [a1] = PubKeyHashAlg, [algs] = algs of the KM hash entries *)
@@ -536,49 +562,49 @@ Definition km_crypto (v a1 : Z) (algs : list Z) : verd :=
     if insecure_alg a1 then bad
     else if existsb insecure_alg algs then bad
     else good
-  else good.
+  else bad.
 
 (** SaneBPMSecurityProps / StrictSaneBPMSecurityProps.
     [flags]: SE[0].Flags (bit0 DMA, bit2 authority measure, bit3 TPM failure
     leaves hierarchies enabled); [pbet] raw PBET byte; [base0], [vtdbar]: v2 DMA
     fallbacks; [txte]: TXT element control flags, [None] when the BPM has no
-    TXT element (nil pointer); [nseg] number of IBB segments *)
+    TXT element ("bpm has no TXT element"); [nseg] number of IBB segments *)
 Definition sane_bpm (v nse flags pbet base0 vtdbar : Z) (txte : option Z) (nseg : Z) : verd :=
   if v =? 1 then
-    if nse =? 0 then VPanic
+    if nse =? 0 then bad
     else if negb (bit flags 0) then bad
     else if negb (bit flags 2) then bad
     else if Z.land pbet 15 =? 0 then bad
     else if nseg <? 1 then bad
     else good
   else if v =? 2 then
-    if nse =? 0 then VPanic
-    else if negb (bit flags 0) && (base0 =? 0) && (vtdbar =? 0) then bad
-    else if negb (bit flags 2) then bad
-    else if Z.land pbet 15 =? 0 then bad
+    if nse =? 0 then bad
     else match txte with
-         | None => VPanic
+         | None => bad
          | Some cf =>
-             if bit cf 9 then bad
+             if negb (bit flags 0) && (base0 =? 0) && (vtdbar =? 0) then bad
+             else if negb (bit flags 2) then bad
+             else if Z.land pbet 15 =? 0 then bad
+             else if bit cf 9 then bad
              else if nseg <? 1 then bad
              else good
          end
-  else good.
+  else bad.
 
 Definition strict_sane_bpm (v nse flags pbet base0 vtdbar : Z) (txte : option Z) (nseg : Z) : verd :=
   if v =? 1 then
-    if nse =? 0 then VPanic
+    if nse =? 0 then bad
     else if negb (bit flags 2) then bad
     else if negb (bit flags 3) then bad
     else sane_bpm v nse flags pbet base0 vtdbar txte nseg
   else if v =? 2 then
-    if nse =? 0 then VPanic
-    else if negb (bit flags 2) then bad
-    else if negb (bit flags 3) then bad
+    if nse =? 0 then bad
     else match txte with
-         | None => VPanic
+         | None => bad
          | Some cf =>
-             if negb (bits cf 5 3 =? 2) then bad
+             if negb (bit flags 2) then bad
+             else if negb (bit flags 3) then bad
+             else if negb (bits cf 5 3 =? 2) then bad
              else sane_bpm v nse flags pbet base0 vtdbar txte nseg
          end
   else sane_bpm v nse flags pbet base0 vtdbar txte nseg.
@@ -592,7 +618,7 @@ Definition ibb_trusted (bootstatus : Z) : verd :=
 
 (** IA32DebugInterfaceLockedDisabled: [ecx] of CPUID.1, MSR 0xC80 *)
 Definition debug_locked (ecx msr : Z) : verd :=
-  if bit ecx 11 then pass
+  if negb (bit ecx 11) then pass     (* no SDBG: the MSR does not exist, nothing to check *)
   else if negb (bit msr 31) then
     if bit msr 30 && negb (bit msr 0) then pass else fail
   else fail.
